@@ -545,7 +545,8 @@ bool no_alias_policy(const std::string& n) {
 }
 
 const std::vector<std::string> ALL_POLS = {
-    "dbg", "rel", "vec", "map", "ind", "cind", "thr", "sdbg", "srel"};
+    "dbg", "rel",  "vec",  "map", "ind",  "cind", "thr", "sdbg",
+    "srel", "dfr", "dfv", "mapx", "mapy", "relx", "vecx"};
 const std::vector<int> REF_SLOTS = {0, 1, 2, 3, 4, 5, 6, 7, 8, 9, 10, 14, 15, 16};
 const std::vector<int> VP_SLOTS = {11, 12, 13, 17, 18, 19};
 const std::vector<int> ALL_SLOTS = {0,  1,  2,  3,  4,  5,  6,  7,  8,  9,
